@@ -69,9 +69,15 @@ impl PropertyValue {
             30 => {
                 let length = reader.read_u32::<LittleEndian>()?;
                 let length = if length == 0 { 0 } else { length - 1 };
-                let mut bytes: Vec<u8> = Vec::with_capacity(length as usize);
-                for _ in 0..length {
-                    bytes.push(reader.read_u8()?);
+                // Don't trust the length enough to allocate a buffer of that
+                // size up front; a malformed file can claim up to 4 GiB.
+                let mut bytes: Vec<u8> = Vec::new();
+                reader.by_ref().take(length as u64).read_to_end(&mut bytes)?;
+                if bytes.len() != length as usize {
+                    return Err(io::Error::new(
+                        io::ErrorKind::UnexpectedEof,
+                        "failed to fill whole buffer",
+                    ));
                 }
                 if reader.read_u8()? != 0 {
                     invalid_data!("Property set string not null-terminated");
